@@ -55,6 +55,7 @@ impl ProgCase {
             fuel,
             clock_start: 1_700_000_000_000,
             random_seed: 12345,
+            withhold_imports: false,
         }
     }
     /// Structural shrink candidates: delete one statement node, or unwrap one block.
